@@ -112,7 +112,7 @@ func (c *Ctx) oblige(st *State, name, kind string, claim *Term, src string, pos 
 	if st.Disc != nil {
 		return
 	}
-	if kind == "ensures" || strings.HasPrefix(kind, "invariant") || kind == "calls" || kind == "lemma" {
+	if (kind == "ensures" || strings.HasPrefix(kind, "invariant") || kind == "calls" || kind == "lemma") && !c.noSplit(name) {
 		if parts := splitClaim(claim); len(parts) > 1 {
 			// the parts are separate proof instances of the same named obligation (stable names under refactoring)
 			for _, p := range parts {
@@ -122,6 +122,24 @@ func (c *Ctx) oblige(st *State, name, kind string, claim *Term, src string, pos 
 		}
 	}
 	c.oblige1(st, name, kind, claim, src, pos)
+}
+
+// noSplit: `opt nosplit l1,l2` keeps the clauses with these labels as single proof instances (whole-struct frame
+// clauses proved from an assumption of the same shape are one cheap query; split per leaf they are dozens).
+func (c *Ctx) noSplit(name string) bool {
+	if c.Spec == nil || c.Spec.Opts["nosplit"] == "" {
+		return false
+	}
+	i := strings.LastIndex(name, "#")
+	if i < 0 {
+		return false
+	}
+	for _, l := range strings.Split(c.Spec.Opts["nosplit"], ",") {
+		if strings.TrimSpace(l) == name[i+1:] {
+			return true
+		}
+	}
+	return false
 }
 
 // splitClaim splits conjunctions (also under one universal quantifier and under implications) into separate claims.
@@ -377,6 +395,17 @@ func (c *Ctx) enterBlock(st *State, b *ssa.BasicBlock) bool {
 		pvals = append(pvals, c.val(st, ph.Edges[edge]))
 	}
 	setPhis := func() {
+		// ghost updates on exit edges of cut loops run with the values of the iteration being left
+		for i := len(st.Loops) - 1; i >= 0; i-- {
+			al := st.Loops[i]
+			if al.Frame != len(st.Frames) || al.L == nil || al.L.Blocks[b] {
+				break
+			}
+			c.ghostAt(st, fr, "loop-exit:"+al.ID, al.L)
+			if prev == al.L.Header {
+				c.ghostAt(st, fr, "loop-done:"+al.ID, al.L) // left because the loop condition became false
+			}
+		}
 		for i, ph := range phis {
 			fr.Env[ph] = pvals[i]
 		}
@@ -422,12 +451,16 @@ func (c *Ctx) enterBlock(st *State, b *ssa.BasicBlock) bool {
 			panic(VerErr{"back edge without active loop record in " + fr.Fn.String()})
 		}
 		setPhis()
+		if st.Disc == nil {
+			// the iteration's calls are judged with the ghost values the iteration ran with
+			c.checkCalls(st, fr, "loop "+loop.ID+" back edge")
+			c.checkCountedCalls(st, fr, loop, al)
+		}
 		c.ghostAt(st, fr, "loop-end:"+loop.ID, loop)
 		if st.Disc != nil {
 			return true
 		}
 		c.checkInvariant(st, fr, loop, ls, "preserved", al)
-		c.checkCalls(st, fr, "loop "+loop.ID+" back edge")
 		c.EndedPaths++
 		return true
 	}
@@ -439,7 +472,7 @@ func (c *Ctx) enterBlock(st *State, b *ssa.BasicBlock) bool {
 	}
 	// discover the write set of the loop body, then havoc
 	ws := c.discoverWrites(st, fr, loop, phis)
-	al := &ActiveLoop{L: loop, Header: b, Frame: len(st.Frames), Entry: st.snapshot(), Spec: ls, ID: loop.ID, Written: ws}
+	al := &ActiveLoop{L: loop, Header: b, Frame: len(st.Frames), Entry: st.snapshot(), Spec: ls, ID: loop.ID, Written: ws, LogLen: len(st.CallLog)}
 	c.havocPhis(st, fr, phis)
 	c.havocWrites(st, ws)
 	st.Loops = append(st.Loops, al)
@@ -546,11 +579,26 @@ func (c *Ctx) havocWrites(st *State, ws *WriteSet) {
 	}
 	for g := range ws.Ghosts {
 		if v, ok := st.Ghost[g]; ok {
-			if t, ok := v.(*Term); ok {
-				st.Ghost[g] = Fresh("havoc.ghost."+g, t.Sort)
-			}
+			st.Ghost[g] = c.havocGhost(st, g, v)
 		}
 	}
+}
+
+// havocGhost: an arbitrary value of the same kind as v (a ghost variable written by a cut loop / havoced frame).
+func (c *Ctx) havocGhost(st *State, g string, v Value) Value {
+	switch x := v.(type) {
+	case *Term:
+		return Fresh("havoc.ghost."+g, x.Sort)
+	case SliceV:
+		return c.symbolic(st, types.NewSlice(x.Elem), "havoc.ghost."+g)
+	case StrV:
+		return c.symbolic(st, types.Typ[types.String], "havoc.ghost."+g)
+	case *StructV:
+		return c.symbolic(st, x.Typ, "havoc.ghost."+g)
+	case UntypedInt:
+		return Fresh("havoc.ghost."+g, c.IntSort())
+	}
+	panic(VerErr{fmt.Sprintf("UNSUPPORTED: ghost variable %s of kind %T is written inside a cut loop", g, v)})
 }
 
 // discoverWrites runs the loop body in discovery mode until the write set is stable.
